@@ -16,133 +16,10 @@ PRIV = core.PeriodicTable("verif_c01_%d" % seed)
 mass.init(PRIV)
 density.init(PRIV)
 
-ELEMENTS = [el for el in PUB if el.number >= 1]
-INT_COUNTS = ["2", "3", "4", "6", "10", "12", "25", "100"]
-DEC_COUNTS = ["0.5", ".5", "1.5", "2.75", "12.50", "1.", "3.", "0.125", "7.0625", ".25", "1.4214", "0.1", "32.4395"]
-
-
-def ocstr(s):
-    return "None" if s is None else "(Some %s)" % cstr(s)
-
-
-def gen_count(p=0.5):
-    if rng.random() > p:
-        return None
-    return rng.choice(INT_COUNTS) if rng.random() < 0.6 else rng.choice(DEC_COUNTS)
-
-
-def gen_elem():
-    r = rng.random()
-    if r < 0.08:
-        sym, el, base = rng.choice([("D", PUB.H, PUB.D), ("T", PUB.H, PUB.T)])
-        iso = None
-    else:
-        el = rng.choice(ELEMENTS) if rng.random() < 0.7 else PUB[rng.choice([1, 6, 7, 8, 11, 17, 20, 26, 14, 15, 29, 92])]
-        sym, base = el.symbol, el
-        iso = None
-        if rng.random() < 0.25 and el.isotopes:
-            iso = str(rng.choice(el.isotopes))
-    ion = None
-    if rng.random() < 0.25 and el.ions:
-        q = rng.choice(el.ions)
-        digits = "" if (abs(q) == 1 and rng.random() < 0.5) else str(abs(q))
-        ion = (digits, q < 0)
-    return dict(sym=sym, iso=iso, ion=ion, cnt=gen_count(0.55))
-
-
-def gen_sep(force_nonempty):
-    if force_nonempty:
-        return rng.choice([(" ", False, ""), ("", True, ""), (" ", True, " "), ("  ", False, ""), ("\t", False, ""), ("", True, " ")])
-    return rng.choice([("", False, ""), (" ", False, ""), ("", True, ""), (" ", True, " "), ("", False, "")])
-
-
-def gen_group(depth):
-    if depth > 0 and rng.random() < 0.45:
-        inner = gen_comp(depth - 1)
-        return dict(kind="exp", lsp=rng.choice(["", "", "", " "]), inner=inner, rsp=rng.choice(["", "", "", " "]),
-                    cnt=gen_count(0.7))
-    return dict(kind="imp", cnt=gen_count(0.3), es=[gen_elem() for _ in range(rng.randint(1, 4))])
-
-
-def gen_comp(depth):
-    n = rng.randint(1, 3)
-    out = []
-    for i in range(n):
-        g = gen_group(depth)
-        # unambiguous under the documented grammar: a group that begins with a count, and an
-        # implicit group that follows an implicit group, are preceded by a non-empty separator
-        lead = g["kind"] == "imp" and (g["cnt"] is not None or (out and out[-1][1]["kind"] == "imp"))
-        sep = ("", False, "") if i == 0 else gen_sep(lead)
-        out.append((sep, g))
-    return out
-
-
-def r_elem(e):
-    s = e["sym"]
-    if e["iso"] is not None:
-        s += "[" + e["iso"] + "]"
-    if e["ion"] is not None:
-        s += "{" + e["ion"][0] + ("-" if e["ion"][1] else "+") + "}"
-    return s + (e["cnt"] or "")
-
-
-def r_group(g):
-    if g["kind"] == "imp":
-        return (g["cnt"] or "") + "".join(r_elem(e) for e in g["es"])
-    return "(" + g["lsp"] + r_comp(g["inner"]) + g["rsp"] + ")" + (g["cnt"] or "")
-
-
-def r_comp(c):
-    out = ""
-    for i, (sep, g) in enumerate(c):
-        if i:
-            out += sep[0] + ("+" if sep[1] else "") + sep[2]
-        out += r_group(g)
-    return out
-
-
-def c_elem(e):
-    ion = "None" if e["ion"] is None else "(Some (%s, %s))" % (cstr(e["ion"][0]), "true" if e["ion"][1] else "false")
-    return "(mkElem %s %s %s %s)" % (cstr(e["sym"]), ocstr(e["iso"]), ion, ocstr(e["cnt"]))
-
-
-def c_sep(s):
-    return "(mkSep %s %s %s)" % (cstr(s[0]), "true" if s[1] else "false", cstr(s[2]))
-
-
-def c_group(g):
-    if g["kind"] == "imp":
-        return "(GImp %s [%s])" % (ocstr(g["cnt"]), "; ".join(c_elem(e) for e in g["es"]))
-    return "(GExp %s %s %s %s)" % (cstr(g["lsp"]), c_comp(g["inner"]), cstr(g["rsp"]), ocstr(g["cnt"]))
-
-
-def c_comp(c):
-    return "[" + "; ".join("(%s, %s)" % (c_sep(s), c_group(g)) for s, g in c) + "]"
-
-
-def gen_tree(depth):
-    comp = gen_comp(depth)
-    dens = None
-    if rng.random() < 0.4:
-        dens = (rng.choice(["", "", " "]), rng.choice(["1", "2.16", "0.5", "1.112", "7.874", ".9", "19.3", "2."]),
-                rng.choice([None, None, "n", "i"]))
-    return comp, dens
-
-
-def render(tree):
-    comp, dens = tree
-    s = r_comp(comp)
-    if dens:
-        s += dens[0] + "@" + dens[1] + (dens[2] or "")
-    return s
-
-
-def c_tree(tree):
-    comp, dens = tree
-    d = "None" if dens is None else "(Some (%s, %s, %s))" % (cstr(dens[0]), cstr(dens[1]),
-                                                          "None" if dens[2] is None else '(Some "%s"%%char)' % dens[2])
-    return "(mkC %s %s)" % (c_comp(comp), d)
-
+import treegen
+treegen.init(rng, PUB)
+from treegen import (gen_tree, render, c_tree, r_elem, r_comp, r_group, gen_count, gen_elem, gen_comp,
+                     ocstr, INT_COUNTS, DEC_COUNTS)
 
 def all_elems(comp, out):
     for _, g in comp:
